@@ -822,20 +822,20 @@ impl SessionContext {
         match (cmd.if_not_exists, cmd.or_replace, exist) {
             (true, false, true) => self.return_empty_dataframe(),
             (false, true, true) => {
+                // Create the new table before removing the existing one, so that a
+                // failure to create it leaves the existing table in place.
+                let table_provider: Arc<dyn TableProvider> =
+                    self.create_custom_table(cmd).await?;
                 let result = self
                     .find_and_deregister(cmd.name.clone(), TableType::Base)
                     .await;
 
                 match result {
                     Ok(true) => {
-                        let table_provider: Arc<dyn TableProvider> =
-                            self.create_custom_table(cmd).await?;
                         self.register_table(cmd.name.clone(), table_provider)?;
                         self.return_empty_dataframe()
                     }
                     Ok(false) => {
-                        let table_provider: Arc<dyn TableProvider> =
-                            self.create_custom_table(cmd).await?;
                         self.register_table(cmd.name.clone(), table_provider)?;
                         self.return_empty_dataframe()
                     }
@@ -882,7 +882,6 @@ impl SessionContext {
             (true, false, Ok(_)) => self.return_empty_dataframe(),
             (false, true, Ok(_)) => {
                 Self::ensure_unique_column_names(input.schema())?;
-                self.deregister_table(name.clone())?;
                 let schema = Arc::clone(input.schema().inner());
                 let physical = DataFrame::new(self.state(), input);
 
@@ -894,6 +893,9 @@ impl SessionContext {
                         .with_column_defaults(column_defaults.into_iter().collect()),
                 );
 
+                // Only remove the existing table once the new one has been built, so
+                // that a failing query leaves the existing table in place.
+                self.deregister_table(name.clone())?;
                 self.register_table(name.clone(), table)?;
                 self.return_empty_dataframe()
             }
